@@ -65,7 +65,7 @@ def itemOfLink (f : File) (l : Nat) : Option Item :=
 /-- well-formed tree tables: as many links as items, deformer indices inside the item table, a forest -/
 def WFTree (f : File) : Prop :=
   f.links.length = f.items.length ∧
-  (∀ l ∈ f.links, l.deformerIndex.toNat < f.items.length) ∧
+  (∀ l ∈ f.links, l.deformerIndex.toNat < f.items.length ∧ (l.parent = none16 ∨ l.parent < 0x8000)) ∧
   (∀ it ∈ f.items, it.linkIndex.toNat < f.links.length ∧ it.linkIndex < 0x8000) ∧
   Forest f.links
 instance (f : File) : Decidable (WFTree f) := by unfold WFTree; infer_instance
